@@ -263,6 +263,14 @@ def choice_cases(tier):
     cases = []
     lists = [list(p) for n in (1, 2, 3) for p in itertools.permutations(CHOICE_POOL, n)]
     cells = CHOICE_POOL + ["re", "redx", "a", "b", "x", "A B"]
+    # values that begin or end with a quote character of the other kind than the one the token is written in
+    quote_cells = ['19"', "19", '24"', "Jones'", "Jones", "'t Hooft", "t Hooft", '"q"', "q", "''", "'"]
+    for choices in (['19"', '24"'], ["Jones'", "'t Hooft", "red"], ['"q"', "red"], ["''", "q"]):
+        for preset in ("delimited", "fixed", "excel", "ods"):
+            decl = {"type": "Choice", "preset": preset, "rule": {"choices": choices, "quoted": True}}
+            if preset == "fixed":
+                decl["width"] = 8
+            cases.append({"decl": decl, "cells": quote_cells + ["red"]})
     for choices in lists:
         styles = [True]
         if all(c.isascii() and c.isidentifier() for c in choices):
@@ -278,8 +286,8 @@ def choice_cases(tier):
 
 def constant_cases(tier):
     cases = []
-    for token, style in (("abc", "str"), ("a b", "str"), ("42", "int"), ("3.14", "float"), ("abc", "name"), ("ä", "str"), ("Abc", "str")):
-        cells = [token, token.upper(), token.lower(), token[:-1] or "z", token + "x", "z" + token, token + ".0", " " + token]
+    for token, style in (("abc", "str"), ("a b", "str"), ("42", "int"), ("3.14", "float"), ("abc", "name"), ("ä", "str"), ("Abc", "str"), ('5"', "str"), ("'s", "str"), ('"q"', "str")):
+        cells = [token, token.upper(), token.lower(), token[:-1] or "z", token + "x", "z" + token, token + ".0", " " + token, token.strip("\"'"), token[1:]]
         cells = [c for c in dict.fromkeys(cells) if c]
         for preset in ("delimited", "fixed", "excel", "ods"):
             decl = {"type": "Constant", "preset": preset, "rule": {"token": token, "style": style}}
